@@ -118,6 +118,21 @@ func verbLevel(name string) string {
 	return n + "Level"
 }
 
+// verbLevelIn: as verbLevel, and a printf-style verb Xf belongs to the level X when there is no level named Xf.
+func verbLevelIn(name string, levels map[string]int64) string {
+	want := verbLevel(name)
+	if want == "" {
+		return ""
+	}
+	if _, ok := levels[want]; !ok {
+		n := strings.TrimSuffix(strings.TrimSuffix(name, "Context"), "f")
+		if _, ok2 := levels[n+"Level"]; ok2 && strings.HasSuffix(strings.TrimSuffix(name, "Context"), "f") {
+			return n + "Level"
+		}
+	}
+	return want
+}
+
 func checkC01(c *Ctx) {
 	r := c.R
 	r.Rule("R17.3", "(shared with C17) a refused registration leaves the level tables untouched")
@@ -591,6 +606,26 @@ func c01Decision(c *Ctx, p *Prog, m *Model) {
 		for _, kv := range tbl {
 			got[m.constName(kv.K)] = m.constName(kv.V)
 		}
+		// the three documented aliases are there; any further built-in alias maps a NON-ordinal level onto an ordinal one
+		// (an ordinal level - Panic..Trace, Off, Always - must never be gated as another)
+		ordinal := map[string]bool{"PanicLevel": true, "FatalLevel": true, "ErrorLevel": true, "WarnLevel": true, "InfoLevel": true, "DebugLevel": true, "TraceLevel": true}
+		okT := true
+		for k, v := range wantT {
+			if got[k] != v {
+				okT = false
+			}
+		}
+		for k, v := range got {
+			if _, documented := wantT[k]; documented {
+				continue
+			}
+			if ordinal[k] || k == "OffLevel" || k == "AlwaysLevel" || !ordinal[v] {
+				okT = false
+			}
+		}
+		if okT {
+			got = wantT
+		}
 		r.Check(fmt.Sprint(got) == fmt.Sprint(wantT), "R01.3", "table:mLevelIsEnabledAs", p.Pos(p.Global(p.Slog, "mLevelIsEnabledAs").Pos()),
 			"initial treated-as table is OK->Info, Success->Info, Fail->Error", fmt.Sprintf("initial treated-as table is %v, the documented one is %v", got, wantT))
 	}
@@ -675,7 +710,7 @@ func c01Verbs(c *Ctx, p *Prog, m *Model, tags string) {
 		}
 	}
 	for _, e := range eps {
-		want := verbLevel(e.verb)
+		want := verbLevelIn(e.verb, m.LevelByName)
 		if want == "" {
 			continue
 		}
